@@ -136,6 +136,13 @@ fn gen_store(r: &mut Rng) -> Vec<Res> {
         res("unknown.bin", &[], "application/x-unknown", &[0, 159, 146, 150]),
         res("style.css", &["css"], "text/css", b"a{}"),
         res("x", &["y:3"], "text/html", b"<p>"),
+        // one resource of every remaining redirectable MIME kind
+        res("vmap.xml", &["noop-vmap1.0.xml"], "text/xml", b"<vmap/>"),
+        res("empty.json", &[], "application/json", b"{}"),
+        res("noop.mp4", &["mp4"], "video/mp4", &[0, 0, 0, 24]),
+        res("noop.mp3", &[], "audio/mp3", &[255, 251]),
+        res("2x2.png", &[], "image/png", &[137, 80, 78, 71]),
+        res("noop.html", &[], "text/html", b"<!DOCTYPE html>"),
     ];
     pool.push(Res { template: true, ..res("tmpl.js", &["tmpl"], "", b"{{1}}") });
     pool.push(Res { permission: 1, ..res("perm.js", &["permjs"], "application/javascript", b"perm()") });
@@ -373,6 +380,7 @@ const NAMES: &[&str] = &[
     "noop.js", "noop.js", "noop.js", "noop.txt", "noop.txt", "1x1.gif", "1x1.gif", "style.css", "noopjs", "noopjs", "noop.js", "noop.js", "noopjs", "noop", "noop.txt", "nooptext", "1x1.gif", "1x1-transparent.gif", "fn.js", "tmpl.js", "tmpl",
     "perm.js", "permjs", "perm.txt", "missing.js", "unknown.bin", "style.css", "other", "sec", "second.txt", "bad.js", "latin1.js",
     "deps.txt", "deps.js", "badtmpl.js", "x", "y", "y:3", "self.txt", "selfalias", "NOOP.JS",
+    "vmap.xml", "noop-vmap1.0.xml", "empty.json", "noop.mp4", "mp4", "noop.mp3", "2x2.png", "noop.html",
 ];
 const SUFFIXES: &[&str] = &[
     "", "", "", "", "", ":10", ":10", ":-1", ":1", ":1", ":2", ":10", ":-1", ":x", ":", ":+3", ":2147483648", ":2147483647", ":-2147483648", ":-2147483649", ":007", ":1 ",
